@@ -66,3 +66,9 @@ CLAIMED['C09'] = ('6/C09', 'Bounded symbolic check against plain-Python evaluati
                   'with and without a .rx.watch callback; every read equals the plain result or raises the same exception class, errors clear '
                   'when the inputs are valid again.',
                   'symbolic execution (CrossHair+z3) of rx evaluation/invalidation against a plain-Python evaluator of the same expression tree')
+CLAIMED['C10'] = ('6/C10', 'Bounded-exhaustive symbolic schedule check on a real asyncio loop (fresh per path): N=2/3 assignments of symbolic kind '
+                  '(coroutine function, two-value async generator, plain value; optionally the identical function object re-assigned) '
+                  'followed by every admissible completion order of the pending futures (solver-chosen indices); an rx pipeline through a '
+                  'coroutine with 2/3 root updates likewise; final value = result of the latest assignment, no superseded result observed '
+                  'after a newer one, a plain value cancels pending references.',
+                  'symbolic execution (CrossHair+z3) over assignment kinds and completion orders with hand-resolved futures')
